@@ -77,6 +77,14 @@ func (net *Net) CheckSafety(s *Shadow) string {
 			if string(block.Hash()) != string(id.Hash) {
 				return fmt.Sprintf("node %d: stored block %d hashes to %X, meta says %X", k, h, block.Hash(), id.Hash)
 			}
+			// independent of the validation code: the decided block is a block OF this height, of this chain, on top of
+			// the block decided before
+			if block.Height != h || block.ChainID != net.Cfg.ChainID {
+				return fmt.Sprintf("node %d decided at height %d a block whose header says height %d chain %q", k, h, block.Height, block.ChainID)
+			}
+			if prevID, ok := s.Decided[h-1]; ok && !block.LastBlockID.Equals(prevID) {
+				return fmt.Sprintf("node %d decided at height %d a block built on %X, but %X was decided at height %d", k, h, block.LastBlockID.Hash, prevID.Hash, h-1)
+			}
 			if prev, ok := s.Decided[h]; ok {
 				if !prev.Equals(id) {
 					return fmt.Sprintf("AGREEMENT: node %d decided %X at height %d, node %d decided %X", k, id.Hash, h, s.By[h], prev.Hash)
